@@ -309,7 +309,15 @@ dt_get_wcnt_year(struct dt_d_s this, unsigned int wkcnt_convention)
 	int res;
 
 	switch (this.typ) {
+	case DT_YWD:
+		if (wkcnt_convention == YWD_ISOWK_CNT) {
+			res = __ywd_get_wcnt_year(this.ywd, wkcnt_convention);
+			break;
+		}
+		/* the other conventions count from Jan 01 */
+		/*@fallthrough@*/
 	case DT_YMD:
+	case DT_YMCW:
 	case DT_DAISY:
 	case DT_YD: {
 		dt_yd_t yd = dt_conv_to_yd(this);
@@ -346,12 +354,6 @@ dt_get_wcnt_year(struct dt_d_s this, unsigned int wkcnt_convention)
 		}
 		break;
 	}
-	case DT_YMCW:
-		res = __ymcw_get_yday(this.ymcw);
-		break;
-	case DT_YWD:
-		res = __ywd_get_wcnt_year(this.ywd, wkcnt_convention);
-		break;
 	default:
 		res = 0;
 		break;
